@@ -84,8 +84,8 @@ func TestVerifC11Burst(t *testing.T) {
 	defer rec.Close()
 	h := verifC11LibSetup(t)
 	rm := h.rm
-	rounds := kit.Tier(10, 80) // bursts per producer and worker count
-	const producers, burst = 4, 320
+	rounds := kit.Tier(30, 400) // bursts per producer and worker count
+	const producers, burst = 4, 96 // 4 x 96 at once: about what 300 workers + their buffer of 30 can take
 	var fed, keysCreated, resets, lookups atomic.Int64
 
 	sampleKeys := func() {
@@ -199,7 +199,7 @@ func TestVerifC11Burst(t *testing.T) {
 					for len(regChan) > 0 && time.Now().Before(deadline) {
 						time.Sleep(200 * time.Microsecond)
 					}
-					time.Sleep(time.Duration(r.Intn(3)) * time.Millisecond)
+					time.Sleep(time.Duration(5+r.Intn(10)) * time.Millisecond) // the workers finish the burst; the next one finds them idle
 				}
 			}(p)
 		}
